@@ -77,12 +77,16 @@ def finish(res, tier, level, t0, facts_key, assumptions, explanation, trusted_ba
     known_keys = {k['key']: k for k in known if 'key' in k}
     viol = res.violations()
     new_viol = []
+    reported_known = []
     for v in viol:
         k = known_keys.get(v.key)
         if k is not None:
-            print('KNOWN-FINDING: property=%s %s' % (res.prop, k.get('what', v.key)))
+            if v.key not in reported_known:
+                print('KNOWN-FINDING: property=%s %s' % (res.prop, k.get('what', v.key)))
+                reported_known.append(v.key)
         else:
             new_viol.append(v)
+    res.extra['known_findings_reported'] = reported_known
     n = len(res.obs)
     discharged = sum(1 for o in res.obs if o.ok)
     distinct = len({o.key for o in res.obs if o.nontrivial})
